@@ -118,3 +118,187 @@ pub(crate) fn negotiate(d: usize, l: usize, dialed: Option<usize>, flip: Option<
         format!("D={} L={}", show(&a), show(&b))
     })
 }
+
+// ---------------------------------------------------------------------------------------------
+// `tp`: the dialed-peer expectation through the real `TcpTransport` entry points.
+//
+// Two real `TcpTransport`s on loopback (the listener on 127.0.0.1 and ::1, same port). The dialer
+// calls the real `Transport::open(id, [address])` (followed by `negotiate(id)` when the transport
+// reports `ConnectionOpened`) or `Transport::dial(id, address)` with
+// `/<host>/tcp/<port>[/p2p/<expected>]`, `<host>` being every address family the TCP address parser
+// accepts: `/ip4/127.0.0.1`, `/ip6/::1`, `/dns/localhost`, `/dns4/localhost`, `/dns6/localhost`.
+//
+// Observation `D=<..>`: `opened:k<i>` (open: `ConnectionOpened`, then `ConnectionEstablished` for
+// the peer of identity key `i`), `established:k<i>` (dial), `openfail:<classes>` / `dialfail:<class>`
+// (`peer-id-mismatch`, ...), or — facts about the sandbox, not about the code — `unresolved` (the
+// name did not resolve to an address of the family), `unavailable` (no loopback listener of the
+// family), `stalled` (nothing within 20 s).
+
+use super::super::{config::Config as TcpConfig, TcpTransport};
+use crate::{
+    error::{DialError, DnsError},
+    transport::{manager::TransportHandle, Transport, TransportBuilder, TransportEvent},
+    PeerId,
+};
+use futures::StreamExt;
+use hickory_resolver::TokioResolver;
+use multiaddr::{Multiaddr, Protocol};
+use std::{
+    collections::HashMap,
+    net::{Ipv4Addr, Ipv6Addr},
+    sync::Arc,
+};
+
+fn resolver() -> Option<Arc<TokioResolver>> {
+    if let Ok(builder) = TokioResolver::builder_tokio() {
+        if let Ok(resolver) = builder.build() {
+            return Some(Arc::new(resolver));
+        }
+    }
+    // as `Litep2p::new` without a system configuration (`localhost` is answered locally)
+    let resolver = TokioResolver::builder_with_config(
+        hickory_resolver::config::ResolverConfig::udp_and_tcp(&hickory_resolver::config::GOOGLE),
+        hickory_resolver::net::runtime::TokioRuntimeProvider::default(),
+    )
+    .build()
+    .ok()?;
+    Some(Arc::new(resolver))
+}
+
+fn make_transport(
+    i: usize,
+    listen: Vec<Multiaddr>,
+    resolver: Arc<TokioResolver>,
+) -> Option<(TcpTransport, Vec<Multiaddr>, Box<dyn std::any::Any>)> {
+    let (event_tx, event_rx) = tokio::sync::mpsc::channel(64);
+    let handle = TransportHandle {
+        executor: Arc::new(crate::executor::DefaultExecutor {}),
+        next_substream_id: Default::default(),
+        next_connection_id: Default::default(),
+        keypair: key(i),
+        tx: event_tx,
+        bandwidth_sink: crate::BandwidthSink::new(),
+        protocols: HashMap::new(),
+    };
+    let config = TcpConfig { listen_addresses: listen, ..Default::default() };
+    let (transport, addresses) = TcpTransport::new(handle, config, resolver).ok()?;
+    Some((transport, addresses, Box::new(event_rx)))
+}
+
+fn dial_class(error: &DialError) -> &'static str {
+    match error {
+        DialError::Timeout => "timeout",
+        DialError::AddressError(_) => "address",
+        DialError::DnsError(DnsError::ResolveError(_)) | DialError::DnsError(DnsError::IpVersionMismatch) =>
+            "unresolved",
+        DialError::NegotiationError(e) => class(e),
+    }
+}
+
+fn key_name(peer: &PeerId) -> String {
+    match (0..16).find(|i| key(*i).public().to_peer_id() == *peer) {
+        Some(i) => format!("k{i}"),
+        None => "?".to_string(),
+    }
+}
+
+/// `via`: `open` | `dial`; `host`: `ip4` | `ip6` | `dns` | `dns4` | `dns6`; `d`, `l`: identity keys of
+/// dialer and listener; `expected`: the key whose peer id is the `/p2p` suffix of the dialed address.
+pub(crate) fn transport_dial(via: &str, host: &str, d: usize, l: usize, expected: Option<usize>) -> String {
+    let rt = tokio::runtime::Builder::new_current_thread().enable_all().build().expect("runtime");
+    rt.block_on(async move {
+        let Some(resolver) = resolver() else { return "D=unresolved".to_string() };
+        // one port for both loopback families
+        let port = match std::net::TcpListener::bind("127.0.0.1:0").and_then(|s| s.local_addr()) {
+            Ok(address) => address.port(),
+            Err(_) => return "D=unavailable".to_string(),
+        };
+        let listen = vec![
+            Multiaddr::empty().with(Protocol::Ip4(Ipv4Addr::LOCALHOST)).with(Protocol::Tcp(port)),
+            Multiaddr::empty().with(Protocol::Ip6(Ipv6Addr::LOCALHOST)).with(Protocol::Tcp(port)),
+        ];
+        let Some((mut listener, bound, _keep_l)) = make_transport(l, listen, resolver.clone()) else {
+            return "D=unavailable".to_string();
+        };
+        let has4 = bound.iter().any(|a| matches!(a.iter().next(), Some(Protocol::Ip4(_))));
+        let has6 = bound.iter().any(|a| matches!(a.iter().next(), Some(Protocol::Ip6(_))));
+        let needs_ok = match host {
+            "ip4" | "dns4" => has4,
+            "ip6" | "dns6" => has6,
+            _ => has4 && has6,
+        };
+        if !needs_ok {
+            return "D=unavailable".to_string();
+        }
+        let Some((mut dialer, _, _keep_d)) = make_transport(d, Vec::new(), resolver) else {
+            return "D=unavailable".to_string();
+        };
+        let accepting = tokio::spawn(async move {
+            while let Some(event) = listener.next().await {
+                if let TransportEvent::PendingInboundConnection { connection_id } = event {
+                    let _ = listener.accept_pending(connection_id);
+                }
+            }
+        });
+
+        let name = || std::borrow::Cow::Borrowed("localhost");
+        let first = match host {
+            "ip4" => Protocol::Ip4(Ipv4Addr::LOCALHOST),
+            "ip6" => Protocol::Ip6(Ipv6Addr::LOCALHOST),
+            "dns" => Protocol::Dns(name()),
+            "dns4" => Protocol::Dns4(name()),
+            _ => Protocol::Dns6(name()),
+        };
+        let mut address = Multiaddr::empty().with(first).with(Protocol::Tcp(port));
+        if let Some(e) = expected {
+            address = address.with(Protocol::P2p(key(e).public().to_peer_id().into()));
+        }
+
+        let id = ConnectionId::from(7usize);
+        let started = match via {
+            "open" => dialer.open(id, vec![address]),
+            _ => dialer.dial(id, address),
+        };
+        if started.is_err() {
+            accepting.abort();
+            return "D=refused".to_string();
+        }
+        let wait = Duration::from_secs(20);
+        let mut opened = false;
+        let result = loop {
+            let event = match tokio::time::timeout(wait, dialer.next()).await {
+                Ok(Some(event)) => event,
+                _ => break "stalled".to_string(),
+            };
+            match event {
+                TransportEvent::ConnectionOpened { connection_id, .. } => {
+                    opened = true;
+                    if dialer.negotiate(connection_id).is_err() {
+                        break "opened:lost".to_string();
+                    }
+                }
+                TransportEvent::ConnectionEstablished { peer, endpoint } => {
+                    let _ = dialer.reject(endpoint.connection_id());
+                    break format!("{}:{}", if opened { "opened" } else { "established" }, key_name(&peer));
+                }
+                TransportEvent::OpenFailure { errors, .. } => {
+                    let mut classes: Vec<&str> = errors.iter().map(|(_, e)| dial_class(e)).collect();
+                    classes.sort();
+                    if classes == ["unresolved"] {
+                        break "unresolved".to_string();
+                    }
+                    break format!("openfail:{}", if classes.is_empty() { "-".to_string() } else { classes.join(",") });
+                }
+                TransportEvent::DialFailure { error, .. } => {
+                    if dial_class(&error) == "unresolved" {
+                        break "unresolved".to_string();
+                    }
+                    break format!("dialfail:{}", dial_class(&error));
+                }
+                _ => {}
+            }
+        };
+        accepting.abort();
+        format!("D={result}")
+    })
+}
